@@ -263,10 +263,24 @@ def gen_source(prog: dict) -> str:
         own_inv = [c for c in kc["inv"] if c not in base_inv]
         for c in own_inv:
             lines += _cond_def(prog, c, "inv", 0, ["self"], "")
+        # late_members: the plain public methods are not written in the class body; a class decorator placed between the
+        # first (innermost) and the second invariant decorator adds them (what a mix-in / registration decorator does)
+        late = []  # type: List[int]
+        if prog.get("late_members") and levels == 1 and len(own_inv) >= 2 and not kbase:
+            late = [f for f in members[k] if prog["fn"][f - 1]["kind"] == "method" and not prog["fn"][f - 1]["pre"]
+                    and not prog["fn"][f - 1]["post"]]
+            for f in late:
+                lines += _fn_source(prog, f, "", [], False, "late_{}".format(f))
+            lines.append("def add_late_{}(cls):".format(k))
+            for f in late:
+                lines.append("    cls.{} = late_{}".format(member_name(prog, f), f))
+            lines.append("    return cls")
         for lvl in range(1, levels + 1):
             if lvl == 1:
-                for c in reversed(own_inv):
+                for ci, c in enumerate(reversed(own_inv)):
                     on = "ALL" if (c in kc["oncall"] and c in kc["onset"]) else ("SETATTR" if c in kc["onset"] else "CALL")
+                    if late and ci == len(own_inv) - 1:
+                        lines.append("@add_late_{}".format(k))
                     lines.append(_decorator(prog, c, "inv", 0, ["self"], check_on=on if on != "CALL" else ""))
                 if kbase:
                     base = "H.classes[{}]".format(kbase)
@@ -281,6 +295,10 @@ def gen_source(prog: dict) -> str:
             for f in members[k]:
                 fn = prog["fn"][f - 1]
                 n = len(fn["pre"])
+                if f in late:
+                    continue
+                if fn.get("alias_of"):
+                    continue   # bound below: a second, public name of the constructor
                 if bare and lvl == bare:
                     if fn["kind"] not in ("init", "new", "repr", "setattr"):
                         body += _fn_source(prog, f, "    ", [], False, member_name(prog, f))
@@ -298,6 +316,10 @@ def gen_source(prog: dict) -> str:
                 with_post = (lvl == first)
                 name = member_name(prog, f)
                 body += _fn_source(prog, f, "    ", group, with_post, name)
+            if lvl == 1:
+                for f in members[k]:
+                    if prog["fn"][f - 1].get("alias_of"):
+                        body.append("    {} = __init__".format(member_name(prog, f)))
             if not body:
                 body = ["    pass"]
             lines += body
